@@ -48,6 +48,7 @@ var fuzzSpellings = []func(path string) string{
 	func(p string) string { return "http://A.EXAMPLE:80" + p },
 	func(p string) string { return "HTTP://a.example" + strings.Replace(p, "r", "%72", 1) },
 	func(p string) string { return "http://a.example/x/.." + p + "#frag" },
+	func(p string) string { return "http://a.example/y/%2E%2e" + p },
 }
 
 func genCCResp(r *rand.Rand, bias string) []string {
@@ -68,7 +69,13 @@ func genCCResp(r *rand.Rand, bias string) []string {
 	if chance(r, pb) {
 		ds = append(ds, "no-cache")
 	} else if chance(r, pb/2) {
-		ds = append(ds, `no-cache="X-Extra"`)
+		ds = append(ds, pick(r, []string{`no-cache="X-Extra"`, `no-cache="X-Extra"`, `no-cache="Age"`, `no-cache="X-Httpcache-Status, X-From-Cache"`, `no-cache="ETag, X-Extra"`}))
+		if chance(r, 0.15) {
+			ds = append(ds, "no-cache") // both forms
+		}
+	}
+	if chance(r, 0.04) {
+		ds = append(ds, "max-age="+pick(r, maxAges)) // a repeated directive
 	}
 	add(pb, "must-revalidate")
 	add(0.06, "no-store")
